@@ -42,6 +42,10 @@ def evaluate(wt, patch, run_tests=True):
 
 def main():
     args = sys.argv[1:]
+    match = None
+    if args and args[0].startswith('--match='):
+        match = args.pop(0)[8:]
+        args.insert(0, '--all')
     if args and args[0] == '--all':
         wt = '/tmp/refacwt'
         sh('git -C /repo worktree add -q --detach %s HEAD' % wt)
@@ -50,11 +54,23 @@ def main():
             bad = 0
             for d in sorted(os.listdir(base)):
                 p = os.path.join(base, d, 'patch.diff')
+                if match and match not in d:
+                    continue
                 if os.path.exists(p):
                     r = evaluate(wt, p, run_tests=False)
                     ok = not r.get('alarms') and 'error' not in r
                     bad += not ok
-                    print(d, 'silent' if ok else r)
+                    if ok:
+                        print(d, 'silent')
+                    else:
+                        seen = {}
+                        for k, v in (r.get('alarms') or {}).items():
+                            line = (v['lines'] or [''])[0]
+                            key = (v['rc'], line.split('property=')[-1][4:90] if v['rc'] == 2 else line[:70])
+                            seen.setdefault(key, [[], line])[0].append(k)
+                        print(d, 'ALARMS', r.get('error', ''))
+                        for (rc, _), (ks, line) in seen.items():
+                            print('     ', ','.join(ks), rc, line[:260])
             print('%d refactorings raise an alarm' % bad)
         finally:
             sh('git -C /repo worktree remove --force %s' % wt)
@@ -64,8 +80,13 @@ def main():
         r = evaluate(wt, os.path.join(d, 'patch.diff'))
         json.dump(r, open(os.path.join(d, 'eval.json'), 'w'), indent=1)
         print(os.path.basename(os.path.dirname(d.rstrip('/'))), os.path.basename(d.rstrip('/')), r.get('tests'), 'ALARMS' if r.get('alarms') else 'silent', r.get('error', ''))
+        seen = {}
         for k, v in (r.get('alarms') or {}).items():
-            print('    ', k, v['rc'], (v['lines'] or [''])[0][:260])
+            line = (v['lines'] or [''])[0]
+            key = (v['rc'], line.split(' gives no verdict')[0].split('property=')[-1][4:] if v['rc'] == 2 else line.split(' ')[0] + line.split(':', 3)[-1][:60])
+            seen.setdefault(key, [k, line])[0] += '' if seen[key][0].endswith(k) else ',' + k
+        for (rc, _), (ks, line) in seen.items():
+            print('    ', ks, rc, line[:300])
 
 
 if __name__ == '__main__':
